@@ -12,6 +12,10 @@ def hooks_commits():
 
 # id -> dict(engine, category, technique, text, note, design_ref)
 CHECKS = {
+ "C20": dict(engine="h_fmt", category="exploration", design="§3 C20",
+   technique="exhaustive sweep of a finite instant set through the real format_time entry point (clock seam), compared with an independent integer calendar algorithm",
+   text="Complete sweeps, not samples: every day of years 0001-9999 at three times of day, every second in windows around year ends, leap days, century and 400-year boundaries and the epoch, a sub-second grid on both sides of the epoch and of the 4-digit range, and +-2^k seconds out to the extremes; every output is compared field by field with an independent days-to-civil algorithm (cross-checked against the time crate) and consecutive outputs must not decrease.",
+   note="The instant is injected through the verif-hooks clock seam inside SystemTime::format_time; the conversion and Display code are the real ones. Years outside 0000..9999 are compared in ISO 8601 expanded form."),
  "C05": dict(engine="h_reg", category="model_checking", design="§3 C05",
    technique="explicit-state BFS over span-lifecycle histories on a real Registry stack (fresh process per history, de-duplicated + no-dedup cross-check) + preemption-bounded exhaustive schedule exploration of the reference-count operations on real threads",
    text="All histories up to the stated depth over a forest of spans (create with contextual/explicit/no parent, clone, drop, enter, exit in any order incl. re-entry, Span::current captures, drops on either thread, thread default switched to another Registry stack or none) run on Registry + 2 recording layers; after every step the close notifications of both layers must equal a reference-count model (exactly once, at the step the last handle/entry/child goes, children first, data readable in on_close and equal to what was stored at creation, nothing stale in a reused slot, closed spans gone, live ids distinct, other registry untouched). Drop||drop, cascade||drop, exit||drop, clone||drop, capture||drop races are explored over every interleaving up to the preemption bound.",
